@@ -5,6 +5,13 @@ import HclModel.Write.Nodes
 import HclModel.Write.StringLit
 import HclModel.Lex.Pos
 import HclModel.Syntax.TypeExpr
+import Driver.OpDec
+import Driver.OpBuild
+import Driver.OpBody
+import Driver.OpParseB
+import Driver.OpExpand
+import Driver.OpJBody
+import Driver.OpGohcl
 open HclModel
 
 structure St where
@@ -60,7 +67,14 @@ def tokText : TypeExpr.Tok → String
   | .lbrace => "{" | .rbrace => "}" | .comma => "," | .eq => "="
 
 def handle (st : St) (line : String) : St × String :=
-  if line.startsWith "EVAL " then
+  if line.startsWith "DEC " then (st, decLine (line.drop 4).toString)
+  else if line.startsWith "BUILD " then (st, buildLine (line.drop 6).toString)
+  else if line.startsWith "BODY " then (st, bodyLine (line.drop 5).toString)
+  else if line.startsWith "PARSEB " then (st, parsebLine (line.drop 7).toString)
+  else if line.startsWith "EXPAND " then (st, expandLine (line.drop 7).toString)
+  else if line.startsWith "JBODY " then (st, jbodyLine (line.drop 6).toString)
+  else if line.startsWith "GOHCL " then (st, gohclLine (line.drop 6).toString)
+  else if line.startsWith "EVAL " then
     match Sexp.parseMany (line.drop 5).toString with
     | some [e, env] => (st, evalLine e env)
     | _ => (st, "bad-op")
